@@ -390,6 +390,22 @@ def r24(orig, rule):
             % (x, y, x, y, a, x, b, y))
 
 
+def rret(orig, rule):
+    # return E;  ->  { let __r = E; return __r; }      (names the returned value so that a proof block can talk about it)
+    s = norm(orig)
+    m = _m(r'return (.+) ;', s)
+    return '{ let __r = %s; return __r; }' % m.group(1)
+
+
+def r26(orig, rule):
+    # for X in &E {  ->  for X in E.iter() {       (E a Vec or slice: IntoIterator for &Vec<T> is the slice iterator)
+    s = norm(orig)
+    m = _m(r'for (%s) in & (.+?) \{' % ID, s)
+    if m.group(2).startswith('mut '):
+        raise NoMatch('&mut iteration')
+    return 'for %s in %s.iter() {' % m.groups()
+
+
 def r1b(orig, rule):
     # for (I, X) in E.iter().enumerate() {   ->  for I in 0..E.len() { let X = &E[I];      (X bound to a reference, as the iterator yields)
     s = norm(orig)
@@ -407,7 +423,7 @@ def r1t(orig, rule):
 
 
 GENERATORS = {
-    'R1b': r1b, 'R1t': r1t, 'R22': r22, 'R23': r23, 'R24': r24, 'R18m': r18m,
+    'R1b': r1b, 'R1t': r1t, 'R22': r22, 'R23': r23, 'R24': r24, 'R18m': r18m, 'RRET': rret, 'R26': r26,
     'RBW': rbw,
     'R4m': r4m,
     'R12m': r12m,
